@@ -11,6 +11,7 @@ for d in seeded/${1:-*}/; do
 	[ "$n" = "C15-r22" ] && { id="C12"; extra=""; } # statistical for C15 and C03, deterministic for the race detector (DESIGN 10.4, round 22)
 	[ "$n" = "C05-r23" ] && { id="C06"; extra=""; } # C05 is about NewMnemonicByEntropy; the change is in NewMnemonic (C06)
 	[ "$n" = "C08-r24" ] && { id="C12"; extra="C01"; } # the checksum under concurrency, not the lists (DESIGN 10.4, round 24)
+	[ "$n" = "C06-r28" ] && extra="" # not reported by design: the class of negative control neg-N5 (DESIGN 10.4, round 28)
 	[ "$n" = "C08-r16" ] && { id="C02"; extra="C03"; } # left to C02/C03 by design (DESIGN 10.4, round 16)
 	tools/seeded-verify.sh "$d" quick $id $extra 2>&1 | grep '^SEEDED' | cut -c1-240
 done
